@@ -197,6 +197,7 @@ func runLeaves(c *vkit.Collector, g *gen, budget int) {
 		r2 := g.rect()
 		c.Check("Rect.Union "+lab, vkit.App("s2_Rect_eqbits", vkit.App("s2_Rect_Union", R, rectT(r2)), rectT(r.Union(r2))))
 		c.Check("Rect.Contains "+lab, vkit.App("Bool.eqb", vkit.App("s2_Rect_Contains", R, rectT(r2)), vkit.B(r.Contains(r2))))
+		searchRect(c, g, r)
 		p := g.point()
 		c.Check("Rect.ContainsPoint "+lab, vkit.App("Bool.eqb", vkit.App("s2_Rect_ContainsPoint", R, pt(p)), vkit.B(r.ContainsPoint(p))))
 		c.Check("Rect.AddPoint "+lab, vkit.App("s2_Rect_eqbits", vkit.App("s2_Rect_AddPoint", R, llT(s2.LatLngFromPoint(p))), rectT(r.AddPoint(s2.LatLngFromPoint(p)))))
@@ -267,7 +268,7 @@ func runCells(c *vkit.Collector, g *gen, budget int) {
 		c.Check(fmt.Sprintf("Cell.CapBound %x", uint64(id)), vkit.App("s2_Cap_eqbits", vkit.App("cell_cap_bound", pt(cb.Center()), ptList(vs)), capT(cb)))
 		for _, v := range vs {
 			if !cb.ContainsPoint(v) {
-				violate(c, "Cell.CapBound", "CapBound misses a vertex of the cell", map[string]interface{}{"cell": fmt.Sprintf("%x", uint64(id))})
+				violate(c, "Cell.CapBound.vertex", "CapBound misses a vertex of the cell", map[string]interface{}{"cell": fmt.Sprintf("%x", uint64(id))})
 			}
 		}
 		searchCell(c, g, cell)
